@@ -328,3 +328,13 @@ Proof.
     rewrite (me_ntt_pure outn product (module_product_elems lh ln rw rn inner outn lhs rhs S Hl Hr)).
     apply me_multiply_hadamard_ntt; assumption.
 Qed.
+
+Lemma kem_shapes_ok :
+  shape_ok SHAPE_GA /\ shape_ok SHAPE_BG /\ shape_ok SHAPE_BGA /\ shape_ok SHAPE_DEC /\
+  module_elem 4 (repeat (unit_vec 64 1) 4).
+Proof.
+  cbv [shape_ok SHAPE_GA SHAPE_BG SHAPE_BGA SHAPE_DEC].
+  do 4 (split; [repeat split; reflexivity|]).
+  split; [reflexivity|]. cbn [repeat].
+  repeat (apply Forall_cons; [apply ring_elem_unit; lia|]). apply Forall_nil.
+Qed.
